@@ -63,8 +63,28 @@ def classify(e):
 
 def bool_switches(fn, P):
     """yield (block, Pred, true_edges, false_edges) for every two-way switch on a bool"""
+    INTS = {'u8': 1, 'u16': 2, 'u32': 4, 'u64': 8, 'usize': 8, 'i8': 1, 'i16': 2, 'i32': 4, 'i64': 8, 'isize': 8}
     for b, bl in enumerate(fn.blocks):
         t = bl['term']
+        if t['k'] == 'switch' and t['ty'] in INTS:
+            # `match x { 2 | 3 => .., 4 => .., _ => .. }`: each listed value is an equality test whose passed edge is the
+            # arm's edge (arms shared by several values share the edge); every other edge implies x != value
+            e = P.operand(t['op'], b, len(bl['stmts']))
+            es = strip(e)
+            if es.k in ('discr',) or (es.k == 'call' and last(es.name) == 'discriminant'):
+                continue
+            for v, tb in t['targets']:
+                try:
+                    iv = int(v)
+                except (TypeError, ValueError):
+                    continue
+                cst = E('const', c={'k': 'int', 'bits': str(iv), 'ty': t['ty'], 'size': INTS[t['ty']]}, ty=t['ty'])
+                p = Pred('eq', [norm(e), cst], raw=e)
+                others = [(b, x) for _, x in t['targets'] if x != tb]
+                if t['otherwise'] != tb:
+                    others.append((b, t['otherwise']))
+                yield b, p, [(b, tb)], sorted(set(others))
+            continue
         if t['k'] != 'switch' or t['ty'] != 'bool':
             continue
         e = P.operand(t['op'], b, len(bl['stmts']))
